@@ -237,7 +237,11 @@ func (s *Solver) check(pc []*Term, extra []*Term, want []*Term) (Result, map[int
 		s.send(fmt.Sprintf("(assert %s)", e.ref()))
 	}
 	s.send("(check-sat)")
+	tq := time.Now()
 	lines := s.sync()
+	if s.Log != nil {
+		fmt.Fprintf(s.Log, "; -> %v in %dms\n", lines, time.Since(tq).Milliseconds())
+	}
 	res := Unknown
 	bad := false
 	for _, l := range lines {
